@@ -90,6 +90,14 @@ def main():
                 no_expectation.add(p)
             else:
                 items.append((p, [n[:3].upper()]))
+        rd = os.path.join(VERIF, 'refactors')
+        if os.path.isdir(rd):
+            for n in sorted(os.listdir(rd)):
+                pth = os.path.join(rd, n, 'patch.diff')
+                meta = os.path.join(rd, n, 'meta.json')
+                if os.path.exists(pth) and os.path.exists(meta) and not json.load(open(meta)).get('breaks_property'):
+                    items.append((pth, ALL))
+                    expect_green.add(pth)
         sd = os.path.join(VERIF, 'seeded')
         if os.path.isdir(sd):
             for n in sorted(os.listdir(sd)):
